@@ -31,8 +31,17 @@ class TableSuite(S.Suite):
     def compare_line(self, line, model):
         if line["op"] == "exprcol":
             return []          # numpy's elementwise arithmetic is a parameter of the model: oracle only
-        if line["op"] == "derive" and (line.get("then") or any(st[0] in ("transpose", "concatenate") for st in line["steps"])):
-            return []          # _t, concatenate and later assignments to the derived table are outside the model (oracle only)
+        if line["op"] == "derive" and line.get("then"):
+            return []          # later assignments to the derived table are outside the model (oracle only)
+        if line["op"] == "derive" and any(st[0] in ("transpose", "concatenate") for st in line["steps"]):
+            # _t renders cells with numpy's str() and concatenate lists the common columns in set order: the shape is
+            # compared (exception class, number of rows, the set of listed columns, rectangularity), not cell text / order
+            if "bad-op" in model:
+                return [("bad-op", None, model["bad-op"])]
+            iv, mv = line["impl"].get("val") or {}, model.get("val") or {}
+            a = (line["impl"].get("exc"), iv.get("nrows"), sorted(iv.get("cols") or []), iv.get("rect"))
+            b = (model.get("exc"), mv.get("nrows"), sorted(mv.get("cols") or []), mv.get("rect"))
+            return [] if a == b else [("val", list(a), list(b))]
         if "bad-op" in model:
             return [("bad-op", None, model["bad-op"])]
         impl = line["impl"]
